@@ -75,10 +75,17 @@ class BoundMethod:
         return '<BoundMethod %r of %r>' % (self.func, self.self_obj)
 
     def __eq__(self, o: Any) -> bool:
-        return isinstance(o, BoundMethod) and o.func is self.func and o.self_obj is self.self_obj
+        if not isinstance(o, BoundMethod) or o.self_obj is not self.self_obj:
+            return False
+        a, b = self.func, o.func
+        if a is b:
+            return True
+        # the same method looked up twice yields two Closure objects over the same definition
+        return isinstance(a, Closure) and isinstance(b, Closure) and a.node is b.node and a.parent is b.parent
 
     def __hash__(self) -> int:
-        return hash((id(self.func), id(self.self_obj)))
+        f = self.func
+        return hash((id(f.node) if isinstance(f, Closure) else id(f), id(self.self_obj)))
 
 
 class SuperProxy:
